@@ -16,7 +16,8 @@ granularity 1e-3), with polygon counts and nesting judged exactly.
 
 Families added by the coverage audit (all judged by TLC, Regions.tla):
   * other ways to build the same drawing (line segments / MultiLineString / shapely polygons through
-    load_path, concatenation of per-piece paths, explode(), copy(), 3D and back), fully exploded
+    load_path, concatenation of per-piece paths, explode(), copy(), split() and back together, 3D and
+    back), fully exploded
     presentations, deeper nesting (depth 4, sibling holes with islands, nested second body);
   * histories with two transforms and a single derived value read before / between them, the
     convenience entry points (apply_scale, apply_translation, rezero), a similarity that is not
@@ -267,6 +268,11 @@ def run_case(tm, job):
                 q = p.copy()
                 p.apply_transform(m3(MAPS["sim"]))            # the original moves on, the copy must not
                 p = q
+            elif how == "split":
+                # one path per body and back together
+                READS[hist[2]](p)
+                parts = list(p.split())
+                p = parts[0] if len(parts) == 1 else tm.path.util.concatenate(parts[::-1])
             elif how == "to3d":
                 p3 = p.to_3D()
                 p3.apply_transform(tm.transformations.rotation_matrix(0.7, [1, 2, 3], [1, 1, 1]))
@@ -673,7 +679,7 @@ def main(argv):
     pairs = [("mirror", "r345"), ("r345m", "mirror"), ("scale2", "rot90"), ("rot180", "sim"), ("translate", "r345m"), ("sim", "translate")]
     reads = [r for r in READS if r != "none"]
     hists2 = [("entry", how, w) for how, w in (("segments", ""), ("mls", ""), ("polygon", ""), ("multipolygon", ""), ("concat", ""), ("add", ""), ("explode", "cold"),
-                                                ("explode", "warm"), ("copy", "all"), ("copy", "discrete"), ("to3d", ""))]
+                                                ("explode", "warm"), ("copy", "all"), ("copy", "discrete"), ("to3d", ""), ("split", "none"), ("split", "all"))]
     hists2 += [("transform2", m1, reads[(3 * j) % len(reads)], m2, (["none"] + reads)[(5 * j + 1) % (len(reads) + 1)]) for j, (m1, m2) in enumerate(pairs * 3)]
     hists2 += [("via", e, w) for e in ("apply_scale", "apply_translation", "rezero") for w in ("none", "all", "discrete")]
     hists2 += [("rot345", w) for w in ("none", "all", "paths")]
@@ -742,7 +748,7 @@ def main(argv):
         byd[dk] = byd.get(dk, 0) + 1
     # coverage guards: every family of the enumeration really produced records
     need_poly = ["read", "raw", "transform:r345", "transform:mirror", "export:svg", "tiny:2", "tiny:-10", "tiny:-20", "entry:segments", "entry:mls", "entry:polygon", "entry:multipolygon",
-                 "entry:concat", "entry:add", "entry:explode", "entry:copy", "entry:to3d", "transform2:mirror", "transform2:r345", "via:apply_scale",
+                 "entry:concat", "entry:add", "entry:explode", "entry:copy", "entry:to3d", "entry:split", "transform2:mirror", "transform2:r345", "via:apply_scale",
                  "via:rezero", "rot345:none", "rot345:all", "t_export:r345", "export_t:dxf", "export_t:svg"]
     need_arc = ["read", "twin", "transform:mirror", "transform:r345", "transform2:mirror", "export:dxf", "export:svg", "export:dict",
                 "t_export:r345", "mag:-20", "mag:10", "mag:40"]
